@@ -122,7 +122,8 @@ Definition nontrivial_case (inp : list Z) : bool :=
   && existsb (fun x => match x with OAlloc _ => false | _ => true end) ops.
 
 (* known shape 1 (same defect as stream "take"): a FullPCPUs Allocate returned more CPUs than
-   requested, by less than one core, and nothing else is wrong before that operation *)
+   requested, by less than one core, nothing else is wrong before that operation, and the
+   whole observable is what the faithful model predicts *)
 Fixpoint first_bad (o : nopts) (ps : list palloc) (clean : bool) (prev : lobs)
                    (ops : list op) (obs : list lobs) : Z :=
   match ops, obs with
@@ -146,7 +147,8 @@ Fixpoint first_bad (o : nopts) (ps : list palloc) (clean : bool) (prev : lobs)
 Definition finding_sig (inp obs : list Z) : Z :=
   let '(o, ops) := decode inp in
   let '(recs, rest) := decode_many dec_lobs (length ops) obs in
-  if ledger_code o ops recs =? 13 then first_bad o [] true (first_dump o) ops recs else 0.
+  if (ledger_code o ops recs =? 13) && eq_listZ (run_case inp) obs
+  then first_bad o [] true (first_dump o) ops recs else 0.
 
 Require Extraction.
 Require Import ExtrOcamlBasic.
